@@ -425,9 +425,9 @@ func c18Hpack(c *lab.Ctx) {
 		"whole / bytewise / in random fragments. lib sessions: MOSN enc -> x/net dec, x/net enc -> MOSN dec (control x/net -> x/net " +
 		"must reproduce the input, else the case is a generator fault, not a verdict). raw sessions: RFC 7541 writer with its own " +
 		"table model -> both decoders. distinct = (mode, direction, list-size class, table-size class, pending update, kinds used, fragmenting)")
-	nLib := c.Pick(2500, 30000)
-	nRaw := c.Pick(2500, 30000)
-	nHuff := c.Pick(20000, 200000)
+	nLib := c.Pick(2500, 12000)
+	nRaw := c.Pick(2500, 12000)
+	nHuff := c.Pick(20000, 100000)
 	maxLong := c.Pick(16384, 65536)
 	replay := c.ReplayCase()
 
@@ -521,7 +521,7 @@ func c18Hpack(c *lab.Ctx) {
 				}
 			}
 			g.kinds = 0
-			list := g.list(cur, c.Pick(192<<10, 512<<10))
+			list := g.list(cur, c.Pick(192<<10, 384<<10))
 			script = append(script, fmt.Sprintf("block(%d fields)", len(list)))
 			cutSeed := rng.Uint64()
 			cutMode := ""
@@ -664,7 +664,7 @@ func c18Hpack(c *lab.Ctx) {
 				}
 			}
 			g.kinds = 0
-			list := g.list(enc.tab.maxSize, c.Pick(192<<10, 512<<10))
+			list := g.list(enc.tab.maxSize, c.Pick(192<<10, 384<<10))
 			var want []c18Field
 			for _, f := range list {
 				var w c18Field
